@@ -15,6 +15,7 @@
 #undef private
 #include "wire.h"
 #include <sys/resource.h>
+#include <sys/stat.h>
 #include <sys/wait.h>
 #include <unistd.h>
 #include <signal.h>
@@ -281,6 +282,18 @@ static Wire c07(Reader& r) {
         Wire out; LinOpInfo li; bool ok=false;
         ll st = guarded_code([&]{ li = maths::info(p.c_str()); ok=true; });
         out.push_back(st); if (ok) { out.push_back((ll)li.storageType()); out.push_back(li.dimension()); out.push_back(li.nlin()); out.push_back(li.ncol()); }
+        return out; }
+    case 16: {  // rtp: like rt, through a path with dots before the extension: style fmt obj targetkind
+        int style=(int)r.n(); int fmt=(int)r.n(); Obj o; getObj(r,o); int tk=(int)r.n();
+        mkdir("omdir.v2",0777);
+        static const char* STEM[] = { "./omfile_p", "omdir.v2/m", "omfile.v1", "omdir.v2/../omfile_q", "omdir.v2/m.x.y" };
+        std::string p = fname(STEM[style],fmt); std::remove(p.c_str());
+        Wire out; ll st = guarded_code([&]{ saveObj(o,p.c_str()); });
+        out.push_back(st);
+        if (st!=0) return out;
+        if (fmt==3) { out.push_back(0); }
+        else { auto b=slurp(p.c_str()); out.push_back(b.size()); for (auto c : b) out.push_back(c); }
+        loadOutcome(out,tk,p.c_str());
         return out; }
     case 10: {  // mesh: mfmt nbytes bytes... -> mesh load outcome, in a child process
         int mf=(int)r.n(); std::string p = std::string("omfile_m.")+MSUFFIX[mf]; spit(p.c_str(),r);
